@@ -64,6 +64,49 @@ Proof.
   intros H. unfold quad2. rewrite pos_nonneg by lra. rewrite pos_nonpos by lra. ring.
 Qed.
 
+Definition quad2_RInt_value (x c : R) : R :=
+  let y0 := ylos x (c - 1) in let y1 := ylos x (c - 1 / 2) in
+  let y2 := ylos x (c + 1 / 2) in let y3 := ylos x (c + 1) in
+  (((y0 - 0) * 0
+    + ((y1 - y0) * (2 * (c - 1) ^ 2) + (-4 * (c - 1)) * (Gh x y1 - Gh x y0) + 2 * (Kh x y1 - Kh x y0)))
+   + ((y2 - y1) * (1 - 2 * c ^ 2) + (4 * c) * (Gh x y2 - Gh x y1) + (-2) * (Kh x y2 - Kh x y1)))
+  + ((y3 - y2) * (2 * (c + 1) ^ 2) + (-4 * (c + 1)) * (Gh x y3 - Gh x y2) + 2 * (Kh x y3 - Kh x y2)).
+
+Lemma quad2_is_RInt x c : 0 <= x -> 0 <= c ->
+  is_RInt (fun y => quad2 c (sqrt (x * x + y * y))) 0 (ylos x (c + 1)) (quad2_RInt_value x c).
+Proof.
+  intros Hx Hc. unfold quad2_RInt_value. cbv zeta.
+  pose proof (ylos_nonneg x (c - 1)) as H0.
+  pose proof (ylos_mono x (c - 1) (c - 1 / 2) Hx ltac:(lra)) as H1.
+  pose proof (ylos_mono x (c - 1 / 2) (c + 1 / 2) Hx ltac:(lra)) as H2.
+  pose proof (ylos_mono x (c + 1 / 2) (c + 1) Hx ltac:(lra)) as H3.
+  set (y0 := ylos x (c - 1)) in *. set (y1 := ylos x (c - 1 / 2)) in *.
+  set (y2 := ylos x (c + 1 / 2)) in *. set (y3 := ylos x (c + 1)) in *.
+  apply (is_RInt_Chasles_R _ 0 y2 y3).
+  apply (is_RInt_Chasles_R _ 0 y1 y2).
+  apply (is_RInt_Chasles_R _ 0 y0 y1).
+  - apply is_RInt_const_ext; [lra|]. intros y Hy. apply quad2_out.
+    assert (sqrt (x * x + y * y) < c - 1) by (apply hyp_lt_ylos; unfold y0 in *; lra).
+    rewrite Rabs_left1 by lra. lra.
+  - apply is_RInt_quad_piece; try lra. intros y Hy.
+    assert (sqrt (x * x + y * y) < c - 1 / 2) by (apply hyp_lt_ylos; unfold y1 in *; lra).
+    assert (Rmax (c - 1) x < sqrt (x * x + y * y)) by (apply hyp_gt_ylos; unfold y0 in *; lra).
+    pose proof (Rmax_l (c - 1) x).
+    rewrite quad2_wing by (rewrite Rabs_left1 by lra; lra).
+    rewrite Rabs_left1 by lra. ring.
+  - apply is_RInt_quad_piece; try lra. intros y Hy.
+    assert (sqrt (x * x + y * y) < c + 1 / 2) by (apply hyp_lt_ylos; unfold y2 in *; lra).
+    assert (Rmax (c - 1 / 2) x < sqrt (x * x + y * y)) by (apply hyp_gt_ylos; unfold y1 in *; lra).
+    pose proof (Rmax_l (c - 1 / 2) x).
+    rewrite quad2_mid by (apply Rabs_le; lra). ring.
+  - apply is_RInt_quad_piece; try lra. intros y Hy.
+    assert (sqrt (x * x + y * y) < c + 1) by (apply hyp_lt_ylos; unfold y3 in *; lra).
+    assert (Rmax (c + 1 / 2) x < sqrt (x * x + y * y)) by (apply hyp_gt_ylos; unfold y2 in *; lra).
+    pose proof (Rmax_l (c + 1 / 2) x).
+    rewrite quad2_wing by (rewrite Rabs_pos_eq by lra; lra).
+    rewrite Rabs_pos_eq by lra. ring.
+Qed.
+
 Lemma Abel_quad2 x c : 0 <= x -> 0 <= c ->
   Abel (quad2 c) (c + 1) x =
     Pt2 (c + 1) (2 * (c + 1) ^ 2) (-4 * (c + 1)) 2 x
@@ -73,41 +116,7 @@ Lemma Abel_quad2 x c : 0 <= x -> 0 <= c ->
 Proof.
   intros Hx Hc. unfold Abel. rewrite abel_upper by lra.
   rewrite <- !Pt2_eq by auto.
-  pose proof (ylos_nonneg x (c - 1)) as H0.
-  pose proof (ylos_mono x (c - 1) (c - 1 / 2) Hx ltac:(lra)) as H1.
-  pose proof (ylos_mono x (c - 1 / 2) (c + 1 / 2) Hx ltac:(lra)) as H2.
-  pose proof (ylos_mono x (c + 1 / 2) (c + 1) Hx ltac:(lra)) as H3.
-  set (y0 := ylos x (c - 1)) in *. set (y1 := ylos x (c - 1 / 2)) in *.
-  set (y2 := ylos x (c + 1 / 2)) in *. set (y3 := ylos x (c + 1)) in *.
-  assert (HI : is_RInt (fun y => quad2 c (sqrt (x * x + y * y))) 0 y3
-     ((((y0 - 0) * 0
-        + ((y1 - y0) * (2 * (c - 1) ^ 2) + (-4 * (c - 1)) * (Gh x y1 - Gh x y0) + 2 * (Kh x y1 - Kh x y0)))
-       + ((y2 - y1) * (1 - 2 * c ^ 2) + (4 * c) * (Gh x y2 - Gh x y1) + (-2) * (Kh x y2 - Kh x y1)))
-      + ((y3 - y2) * (2 * (c + 1) ^ 2) + (-4 * (c + 1)) * (Gh x y3 - Gh x y2) + 2 * (Kh x y3 - Kh x y2)))).
-  { apply (is_RInt_Chasles_R _ 0 y2 y3).
-    apply (is_RInt_Chasles_R _ 0 y1 y2).
-    apply (is_RInt_Chasles_R _ 0 y0 y1).
-    - apply is_RInt_const_ext; [lra|]. intros y Hy. apply quad2_out.
-      assert (sqrt (x * x + y * y) < c - 1) by (apply hyp_lt_ylos; unfold y0 in *; lra).
-      rewrite Rabs_left1 by lra. lra.
-    - apply is_RInt_quad_piece; try lra. intros y Hy.
-      assert (sqrt (x * x + y * y) < c - 1 / 2) by (apply hyp_lt_ylos; unfold y1 in *; lra).
-      assert (Rmax (c - 1) x < sqrt (x * x + y * y)) by (apply hyp_gt_ylos; unfold y0 in *; lra).
-      pose proof (Rmax_l (c - 1) x).
-      rewrite quad2_wing by (rewrite Rabs_left1 by lra; lra).
-      rewrite Rabs_left1 by lra. ring.
-    - apply is_RInt_quad_piece; try lra. intros y Hy.
-      assert (sqrt (x * x + y * y) < c + 1 / 2) by (apply hyp_lt_ylos; unfold y2 in *; lra).
-      assert (Rmax (c - 1 / 2) x < sqrt (x * x + y * y)) by (apply hyp_gt_ylos; unfold y1 in *; lra).
-      pose proof (Rmax_l (c - 1 / 2) x).
-      rewrite quad2_mid by (apply Rabs_le; lra). ring.
-    - apply is_RInt_quad_piece; try lra. intros y Hy.
-      assert (sqrt (x * x + y * y) < c + 1) by (apply hyp_lt_ylos; unfold y3 in *; lra).
-      assert (Rmax (c + 1 / 2) x < sqrt (x * x + y * y)) by (apply hyp_gt_ylos; unfold y2 in *; lra).
-      pose proof (Rmax_l (c + 1 / 2) x).
-      rewrite quad2_wing by (rewrite Rabs_pos_eq by lra; lra).
-      rewrite Rabs_pos_eq by lra. ring. }
-  rewrite (is_RInt_unique _ _ _ _ HI). ring.
+  rewrite (is_RInt_unique _ _ _ _ (quad2_is_RInt x c Hx Hc)). unfold quad2_RInt_value. cbv zeta. ring.
 Qed.
 
 Lemma Pt2_above x Rc a b c : x < Rc ->
